@@ -250,5 +250,33 @@ Section Detect.
       apply (H2 Hna eq_refl f g); auto.
       destruct Hh as (c & c' & w & (o & Hin & _) & _). apply in_map_iff. exists (f, o); auto.
     Qed.
+
+    (** symmetric narrow phase and symmetric whitelists: the two bounds coincide *)
+    Definition narrow_symmetric : Prop := forall c c', narrow c c' = narrow c' c.
+    Definition wl_symmetric : Prop :=
+      forall f g wf wg, dict_get feqb (wls_ st) f = Some wf -> dict_get feqb (wls_ st) g = Some wg ->
+                        (In g wf <-> In f wg).
+
+    Lemma hits_sym f g : narrow_symmetric -> wl_symmetric -> hits st g f -> hits st f g.
+    Proof.
+      intros Hn Hs (c & c' & w & Hg & Hf & Hw & Hnw & Hnar).
+      destruct Hf as (o & Hin & Hc).
+      destruct (Hwl f) as (wf & Hwf). { apply in_map_iff. exists (f, o); auto. }
+      exists c', c, wf. repeat split; auto.
+      - exists o; auto.
+      - intros Hin'. apply Hnw. apply (Hs f g wf w Hwf Hw). exact Hin'.
+      - rewrite Hn. exact Hnar.
+    Qed.
+
+    Corollary detect_spec_symmetric :
+      narrow_implies_aabb_overlap -> narrow_symmetric -> wl_symmetric ->
+      exists contacts, detect st = XOk contacts /\
+        forall f, dict_get feqb contacts f = Some true <-> exists g, hits st f g.
+    Proof.
+      intros Hna Hn Hs. destruct detect_spec_st as (contacts & Hd & _ & _ & Hc & Hsnd).
+      exists contacts. split; auto. intros f. split.
+      - intros H. destruct (Hsnd f H) as (g & [Hh|Hh]); exists g; auto. apply hits_sym; auto.
+      - apply Hc; auto.
+    Qed.
   End WithState.
 End Detect.
